@@ -164,6 +164,11 @@ class Analyzer:
         if isinstance(e, ast.Call):
             fn = e.func
             name = fn.id if isinstance(fn, ast.Name) else fn.attr if isinstance(fn, ast.Attribute) else ""
+            if name == "sorted" and any(k.arg == "key" for k in e.keywords):
+                # a key function need not be injective: ties keep the (unordered) input order
+                return any(self.expr_tainted(a, tainted, fi, findings) for a in e.args)
+            if name in ("min", "max") and any(k.arg == "key" for k in e.keywords):
+                return any(self.expr_tainted(a, tainted, fi, findings) for a in e.args)
             if name in SANITIZERS and name not in UNORDERED_CALLS:
                 return False
             args = list(e.args) + [k.value for k in e.keywords]
